@@ -55,7 +55,7 @@ pub fn sync_diff(lay: &Layout, m: &Model, s: &State) -> Option<String> {
 struct Run<'a> { seen: &'a mut HashSet<&'static str>, desc: &'a dyn Fn(usize) -> String, failed: bool }
 impl Run<'_> {
     fn fail(&mut self, label: &'static str, k: usize, observed: String, expected: String) {
-        if for_c01() && label != L_C01_DISPATCH { return; }
+        if for_c01() != (label == L_C01_DISPATCH) { return; }
         self.failed = true;
         if self.seen.insert(label) { report(label, (self.desc)(k), observed, expected); }
     }
